@@ -35,19 +35,20 @@ class AxolotlControlLayer(AxolotlBaseLayer):
             self.toUpper(protocolTreeNode)
 
     def onIdentityChangeEncryptNotification(self, protocoltreenode):
-        entity = IdentityChangeEncryptNotification.fromProtocolTreeNode(protocoltreenode)
+        # acknowledged first: the ack needs nothing of the parsed entity, and the server repeats an unacknowledged notification
         ack = OutgoingAckProtocolEntity(
             protocoltreenode["id"], "notification", protocoltreenode["type"], protocoltreenode["from"],
             participant=protocoltreenode["participant"]
         )
         self.toLower(ack.toProtocolTreeNode())
+        entity = IdentityChangeEncryptNotification.fromProtocolTreeNode(protocoltreenode)
         self.getKeysFor([entity.getFrom(True)], resultClbk=lambda _,__: None, reason="identity")
 
     def onRequestKeysEncryptNotification(self, protocolTreeNode):
-        entity = RequestKeysEncryptNotification.fromProtocolTreeNode(protocolTreeNode)
         ack = OutgoingAckProtocolEntity(protocolTreeNode["id"], "notification", protocolTreeNode["type"], protocolTreeNode["from"],
                                         participant=protocolTreeNode["participant"])
         self.toLower(ack.toProtocolTreeNode())
+        entity = RequestKeysEncryptNotification.fromProtocolTreeNode(protocolTreeNode)
         self.flush_keys(
             self.manager.generate_signed_prekey(),
             self.manager.level_prekeys(force=True)
